@@ -13,7 +13,7 @@ var props = map[string]propConf{
 	"C08": {Level: "exploration", Quick: 12000, Thorough: 8000000, ThoroughS: 1500},
 	"C09": {Level: "exploration", Quick: 3000, Thorough: 4000000, ThoroughS: 1500},
 	"C10": {Level: "exploration", Quick: 3000, Thorough: 2000000, ThoroughS: 1500},
-	"C11": {Level: "exploration", Quick: 300, Thorough: 800000, ThoroughS: 1800, Race: true, Chunk: 50},
+	"C11": {Level: "exploration", Quick: 600, Thorough: 800000, ThoroughS: 1800, Race: true, Chunk: 50},
 	"C12": {Level: "exploration", Quick: 2000, Thorough: 2000000, ThoroughS: 1200},
 	"C13": {Level: "exploration", Quick: 10000, Thorough: 20000000, ThoroughS: 1500},
 	"C14": {Level: "exploration", Quick: 3000, Thorough: 20000000, ThoroughS: 1200},
